@@ -393,7 +393,12 @@ func (g *Gen) Next() Op {
 		}
 		return Op{K: KOpenQuery, F: g.R.Intn(MaxFilters), W: g.R.Intn(2), QR: g.queryRels(), N: n}
 	case KNext:
-		return Op{K: KNext, Q: g.R.Intn(64), N: g.R.Intn(12)}
+		op := Op{K: KNext, Q: g.R.Intn(64), N: g.R.Intn(12)}
+		if g.R.Chance(0.3) {
+			op.Fn = FnFunc // write through the query's pointers
+			op.Vs = g.vals(8)
+		}
+		return op
 	case KCloseQuery:
 		if g.R.Chance(0.2) {
 			return Op{K: KCloseQuery, Q: g.R.Intn(64), M: "again"}
@@ -621,7 +626,11 @@ func (g *Gen) queryRels() []RelSpec {
 	var out []RelSpec
 	for _, r := range RelTypes {
 		if g.R.Chance(0.5) {
-			out = append(out, RelSpec{T: r, Tgt: g.target()})
+			t := g.target()
+			if g.R.Chance(0.1) {
+				t = -100 - g.R.Intn(50) // a removed entity (ID-based queries only)
+			}
+			out = append(out, RelSpec{T: r, Tgt: t})
 		}
 	}
 	return out
